@@ -495,25 +495,26 @@ def _activate_plugin_worlds() -> Iterator[None]:
         yield
 
 
+def _jax_x64_scope(enabled: bool) -> Any:
+    """JAX's own scoped x64 switch.
+
+    ``jax.config.update`` writes the process-wide flag while
+    ``jax.config.jax_enable_x64`` reads the context-local one, so a manual
+    save/update/restore run inside a user's ``with jax.enable_x64(...)`` block
+    "restored" the context-local value into the global flag (and traced with the
+    context's precision instead of the requested one).  The context manager is
+    scoped, nests correctly and leaves the global flag alone.
+    """
+    scope = getattr(jax, "enable_x64", None)
+    if scope is None:  # pragma: no cover - older jax only ships the experimental name
+        from jax.experimental import enable_x64 as scope
+    return scope(bool(enabled))
+
+
 @contextmanager
 def _force_jax_x64(enable_double_precision: bool) -> Iterator[None]:
-    read_config = jax.config.read if hasattr(jax.config, "read") else None
-    if callable(read_config):
-        previous = bool(read_config("jax_enable_x64"))
-    else:
-        previous = (
-            bool(jax.config.jax_enable_x64)
-            if hasattr(jax.config, "jax_enable_x64")
-            else False
-        )
-    target = bool(enable_double_precision)
-    if previous != target:
-        jax.config.update("jax_enable_x64", target)
-    try:
+    with _jax_x64_scope(enable_double_precision):
         yield
-    finally:
-        if previous != target:
-            jax.config.update("jax_enable_x64", previous)
 
 
 def _create_ir_context(
